@@ -19,15 +19,20 @@ def tag(i, j):
     return i * 1000 + j
 
 
+def curve_name(sc, j):
+    names = sc.get("names")
+    return names[j] if names else "K%d" % j
+
+
 def build_text(sc):
     d, c, r = sc["declared"], sc["cols"], sc["rows"]
     vers = sc.get("vers", 2.0)
-    lines = docmodel.version_section(vers, "YES" if sc["wrap"] else "NO")
+    lines = docmodel.version_section(vers, "YES" if sc["wrap"] else "NO", "COMMA" if sc.get("comma") else None)
     if sc.get("no_wrap_item"):
         lines = [ln for ln in lines if not ln.startswith("WRAP")]       # file does not declare WRAP at all
     lines += docmodel.well_section(0.0, float(tag(r - 1, 0)), 1000.0, -999.25, "M", (), version=vers)
     if sc.get("curve_section", True):
-        curves = [("K%d" % j, UNITS[j % 4], "", "declared curve %d" % j) for j in range(d)]
+        curves = [(curve_name(sc, j), UNITS[j % 4], "", "declared curve %d" % j) for j in range(d)]
         lines += docmodel.curve_section(curves)
     if sc.get("params"):
         lines += docmodel.param_section([("BHT", "DEGC", "35.5", "BOTTOM HOLE TEMPERATURE")])
@@ -55,9 +60,13 @@ def build_text(sc):
         noise = {}
         for pos, txt in sc.get("noise", []):
             noise.setdefault(min(pos, r), []).append(txt)
+        empty = set(tuple(x) for x in sc.get("empty", []))
         for i in range(r):
             lines += noise.get(i, [])
-            lines.append(sc.get("lead", " ") + sc.get("sep", " ").join(fmt % tag(i, j) for j in range(c)))
+            if sc.get("comma"):
+                lines.append(sc.get("lead", " ") + sc["comma"].join("" if (i, j) in empty else fmt % tag(i, j) for j in range(c)))
+            else:
+                lines.append(sc.get("lead", " ") + sc.get("sep", " ").join(fmt % tag(i, j) for j in range(c)))
         lines += noise.get(r, [])
     for t in sc.get("tail", []):
         lines += t
@@ -110,6 +119,21 @@ class C07(Prop):
                                for _ in range(g.randint(1, 3))]
             if g.random() < 0.12 and c >= 2:
                 sc["ragged"] = [g.randint(1, c + 1) for _ in range(g.randint(2, 4))]
+        if not wrap and not sc.get("ragged") and g.random() < 0.12:
+            # DLM COMMA; a few empty fields (the same number on every line, so that the column count stays inferable)
+            sc["comma"] = g.choice([",", ", ", " , "])
+            sc.pop("sep", None)
+            sc.pop("noise", None)
+            if sc["cols"] >= 3 and g.random() < 0.5:
+                jj = g.randrange(1, sc["cols"])
+                sc["empty"] = [[i, jj if g.random() < 0.7 else g.randrange(1, sc["cols"])] for i in range(sc["rows"])]
+        if sc["declared"] >= 3 and g.random() < 0.1:
+            # mnemonics that look like column positions, declared out of position
+            names = ["DEPT"] + [str(k) for k in range(1, sc["declared"])]
+            tail = names[1:]
+            g.shuffle(tail)
+            sc["names"] = ["DEPT"] + tail
+        sc["case"] = g.choice(["upper", "upper", "lower", "preserve"])
         sc["cellfmt"] = g.choice(["%d", "%d", "%.1f", "%.3f"])
         sc["vers"] = g.choice([1.2, 2.0])
         sc["params"] = g.random() < 0.3
@@ -127,7 +151,7 @@ class C07(Prop):
         fs = SimFS(policy=Policy.from_json(sc["policy"]))
         with fs:
             try:
-                las = read_via(fs, text, sc["channel"], {"engine": sc["engine"]}, tag="c07")
+                las = read_via(fs, text, sc["channel"], {"engine": sc["engine"], "mnemonic_case": sc.get("case", "upper")}, tag="c07")
             except Exception as e:
                 res.count("read-raised:" + type(e).__name__)
                 res.skipped = "read raised %s (the statement speaks of successful reads)" % type(e).__name__
@@ -159,7 +183,8 @@ class C07(Prop):
             return res
         for j in range(d):
             cv = curves[j]
-            if (cv.original_mnemonic, cv.unit, cv.descr) != ("K%d" % j, UNITS[j % 4], "declared curve %d" % j):
+            cf = {"upper": str.upper, "lower": str.lower}.get(sc.get("case", "upper"), str)
+            if (cv.original_mnemonic, cv.unit, cv.descr) != (cf(curve_name(sc, j)), UNITS[j % 4], "declared curve %d" % j):
                 res.violate("C07.declared-metadata", "declared curve #%d came back as (%r, %r, %r)" % (j, cv.original_mnemonic, cv.unit, cv.descr))
                 return res
         for j in range(d, n):
@@ -171,6 +196,24 @@ class C07(Prop):
             return res
         for j in range(n):
             a = np.asarray(curves[j].data)
+            empty = set(tuple(x) for x in sc.get("empty", []))
+            if j < c and any((i, j) in empty for i in range(r)):
+                # a column with empty fields comes back as text: every non-empty cell must still be its own tagged value
+                res.count("columns-with-empty-fields")
+                for i in range(r):
+                    cell = a[i]
+                    if (i, j) in empty:
+                        ok = str(cell).strip() in ("", "nan")
+                    else:
+                        try:
+                            ok = float(cell) == float(tag(i, j))
+                        except (TypeError, ValueError):
+                            ok = False
+                    if not ok:
+                        res.violate("C07.binding", "curve #%d row %d holds %r, expected %s (comma-delimited with empty fields; d=%d c=%d r=%d engine=%s)" % (
+                            j, i, cell, "an empty cell" if (i, j) in empty else tag(i, j), d, c, r, sc["engine"]))
+                        return res
+                continue
             if j < c:
                 want = np.array([tag(i, j) for i in range(r)], dtype=float)
                 if a.dtype.kind != "f" or not np.array_equal(a, want):
@@ -207,8 +250,8 @@ class C07(Prop):
             d = copy.deepcopy(sc)
             d["policy"] = Policy().to_json()
             yield d
-        for k, v in (("no_wrap_item", False), ("params", False), ("title", "~ASCII"), ("final_newline", True), ("cellfmt", "%d"), ("lead", " "), ("sep", " ")):
-            if k in sc and sc[k] != v:
+        for k, v in (("names", None), ("empty", []), ("case", "upper"), ("no_wrap_item", False), ("params", False), ("title", "~ASCII"), ("final_newline", True), ("cellfmt", "%d"), ("lead", " "), ("sep", " ")):
+            if k in sc and sc[k] != v and sc[k]:
                 d = copy.deepcopy(sc)
                 d[k] = v
                 yield d
